@@ -161,6 +161,9 @@ pub struct St {
     /// flush() of the wrapped sink waits while one of its emits is in progress and panics once an emit has panicked -
     /// exactly what the library's own buffered sinks do (Mutex held across emit, lock().unwrap() in flush)
     pub flush_like_buffered_sink: bool,
+    /// flush() of the wrapped sink fails with an error of its own (nobody but a caller's flush may ever see it: the
+    /// queuing sink's thread has no business flushing, and a flush failure is not a failure of a queued metric)
+    pub flush_fails: bool,
     pub log: Vec<Ev>,
     pub permits: usize,
     pub open: bool,
@@ -176,7 +179,7 @@ pub struct Shared {
 
 impl Shared {
     pub fn new(gated: bool) -> Arc<Shared> {
-        Arc::new(Shared { st: Mutex::new(St { flush_like_buffered_sink: false, log: Vec::new(), permits: 0, open: !gated, in_call: 0, sleep_us: (0, 0) }), cv: Condvar::new() })
+        Arc::new(Shared { st: Mutex::new(St { flush_like_buffered_sink: false, flush_fails: false, log: Vec::new(), permits: 0, open: !gated, in_call: 0, sleep_us: (0, 0) }), cv: Condvar::new() })
     }
     pub fn push(&self, e: Ev) {
         let mut g = self.st.lock().unwrap_or_else(|e| e.into_inner());
@@ -273,6 +276,9 @@ impl MetricSink for GatedSink {
 impl GatedSink {
     fn flush_impl(&self) -> io::Result<()> {
         let mut g = self.sh.st.lock().unwrap_or_else(|e| e.into_inner());
+        if g.flush_fails {
+            return Err(io::Error::new(io::ErrorKind::BrokenPipe, "scripted-flush-failure"));
+        }
         if !g.flush_like_buffered_sink {
             return Ok(());
         }
